@@ -2229,7 +2229,12 @@ def judge_link_histories(hs, answers, cov, viol):
                        f"{res}); C01 over links gives live={sl}, session {sk} (resumable: {sr}): keys are proved per link and "
                        "go with it, however the link ended")
                 break
-        if bad:
+        if bad and bad[1] == "stale-or-missing-keys" and kinds[bad[0]].endswith("+setup-failed") and impl[bad[0]][:2] == (True, bad[0]):
+            # the attempt whose set-up failed was NOT dropped: its session was proved on its own link, so C01 is not
+            # violated (that the loop must not keep it is C10's business) - only the machine disagrees
+            viol.append(violation(f"model-mismatch:link:{tr_}:setup-failed-attempt-kept",
+                                  f"life-cycle history {kinds}: {bad[2]}", False, **payload))
+        elif bad:
             viol.append(violation(f"link:{tr_}:{bad[1]}:{kinds[bad[0]]}", f"life-cycle history {kinds} on one live {tr_} object: {bad[2]}",
                                   True, **payload))
         elif model is not None:
